@@ -8,6 +8,7 @@
       width   - no line longer than e.w columns                                             (C15)
       lines   - exactly e.h lines                                                           (C16)
       attrs   - every identified glyph carries exactly the expected attributes              (C14)
+      glyphs  - the identified glyphs are exactly the expected ones, in order                (C14, texts styled side by side)
       centred - the highlighted item's rows sit in the vertical middle of the frame          (C16) *)
 EXTENDS Term, TLC, Json
 Log == ndJsonDeserialize("trace.ndjson")
@@ -24,6 +25,11 @@ AttrsOK(f, exp) ==
           /\ IF x.fg = <<>> THEN g.a.fg = <<>> ELSE g.a.fg = x.fg[1]
           /\ IF x.bg = <<>> THEN g.a.bg = <<>> ELSE g.a.bg = x.bg[1]
 
+(* glyphs: the identified characters seen are exactly the expected ones, each once, in order (nothing lost, nothing
+   from elsewhere) *)
+GlyphsOK(f, order) ==
+    LET seen == [i \in 1..Len(f.seen) |-> f.seen[i].id] IN seen = order
+
 Failed(e) ==
     LET f == GlyphFold(e.toks) st == f.st want == Range(e.chk) IN
     (IF "noctl" \in want /\ ~NoCtl(st) THEN <<"noctl">> ELSE <<>>) \o
@@ -31,6 +37,7 @@ Failed(e) ==
     (IF "width" \in want /\ ~WidthBound(st, e.w) THEN <<"width">> ELSE <<>>) \o
     (IF "lines" \in want /\ ~LineCount(st, e.h) THEN <<"lines">> ELSE <<>>) \o
     (IF "attrs" \in want /\ ~AttrsOK(f, e.expect) THEN <<"attrs">> ELSE <<>>) \o
+    (IF "glyphs" \in want /\ ~GlyphsOK(f, e.order) THEN <<"glyphs">> ELSE <<>>) \o
     (IF "centred" \in want /\ ~Centred(e.h, e.cursor_top, e.cursor_rows) THEN <<"centred">> ELSE <<>>)
 
 Init == l = 1 /\ bad = <<>>
